@@ -20,6 +20,7 @@ import (
 	"sort"
 	"strconv"
 	"strings"
+	"sync"
 	"time"
 
 	"github.com/meshplus/bitxhub-core/governance"
@@ -38,11 +39,11 @@ const bxhID = "1356"
 // input
 
 type setup struct {
-	Chains   []int     `json:"chains"`   // seeded appchains (ids 0..15) -> "chain<i>", HappyRule master rule
-	Services [][4]int  `json:"services"` // [chain, svc, ordered(0/1), status(0 available,1 frozen,2 absent-but-chain-exists)]
-	Gas      int64     `json:"gas"`      // bvm gas price (0 = no fees)
-	Balance  string    `json:"balance"`  // genesis balance of every admin (default 10^18)
-	Fund     [][2]int64 `json:"fund"`    // [user, amount] transfers from admin 0 executed in the first block (before the history's txs)
+	Chains   []int      `json:"chains"`   // seeded appchains (ids 0..15) -> "chain<i>", HappyRule master rule
+	Services [][4]int   `json:"services"` // [chain, svc, ordered(0/1), status(0 available,1 frozen,2 absent-but-chain-exists)]
+	Gas      int64      `json:"gas"`      // bvm gas price (0 = no fees)
+	Balance  string     `json:"balance"`  // genesis balance of every admin (default 10^18)
+	Fund     [][2]int64 `json:"fund"`     // [user, amount] transfers from admin 0 executed in the first block (before the history's txs)
 }
 
 type blockIn struct {
@@ -64,7 +65,7 @@ type history struct {
 // output
 
 type divergence struct {
-	Block  int      `json:"block"`  // index into Blocks (-1 = genesis block)
+	Block  int      `json:"block"` // index into Blocks (-1 = genesis block)
 	Field  string   `json:"field"`
 	Values []string `json:"values"` // canonical value per replica (hex / canonical string, truncated)
 }
@@ -81,10 +82,10 @@ type txObs struct {
 type blockObs struct {
 	Height   uint64               `json:"height"`
 	Txs      []txObs              `json:"txs"`
-	Counter  map[string][][2]int  `json:"counter"`  // chain -> [[index, valid]]
-	Timeout  map[string][][]int64 `json:"timeout"`  // chain -> ids ([sc,ss,dc,ds,idx])
-	MultiTx  map[string][][]int64 `json:"multitx"`  // chain -> ids
-	L2Roots  int                  `json:"l2roots"`  // number of timeout L2 roots
+	Counter  map[string][][2]int  `json:"counter"`   // chain -> [[index, valid]]
+	Timeout  map[string][][]int64 `json:"timeout"`   // chain -> ids ([sc,ss,dc,ds,idx])
+	MultiTx  map[string][][]int64 `json:"multitx"`   // chain -> ids
+	L2Roots  int                  `json:"l2roots"`   // number of timeout L2 roots
 	SvcState [][4]int             `json:"svc_state"` // ledger service records after the block: [chain, svc, available, ordered]
 }
 
@@ -96,8 +97,8 @@ type output struct {
 	Div     *divergence         `json:"div,omitempty"`     // first divergence
 	AllDiv  []divergence        `json:"all_div,omitempty"` // first divergence per field (bounded)
 	Fields  []string            `json:"fields"`
-	Digests [][][]string        `json:"digests"` // [block][field][replica] sha256 hex of the canonical bytes; block 0 = genesis block
-	Obs     []blockObs          `json:"obs"`     // replica 0, one per history block
+	Digests [][][]string        `json:"digests"`           // [block][field][replica] sha256 hex of the canonical bytes; block 0 = genesis block
+	Obs     []blockObs          `json:"obs"`               // replica 0, one per history block
 	ObsAll  [][]blockObs        `json:"obs_all,omitempty"` // every replica (only when replicas disagree)
 	Genesis map[string][]string `json:"genesis_info"`      // non-result facts about block 1 per replica (header timestamp equality etc.)
 	Millis  int64               `json:"millis"`
@@ -695,76 +696,94 @@ func runHistory(h *history) (out output) {
 	for bi, b := range h.Blocks {
 		vals := make([]map[string]string, h.K)
 		obs := make([]blockObs, h.K)
+		errs := make([]string, h.K)
+		var wg sync.WaitGroup
 		for i, r := range reps {
-			if i < len(b.Restart) && b.Restart[i] != 0 {
-				if err := r.c.Restart(); err != nil {
-					out.Err = fmt.Sprintf("restart replica %d before block %d: %v", i, bi, err)
+			wg.Add(1)
+			go func(i int, r *replica) {
+				defer wg.Done()
+				defer func() {
+					if e := recover(); e != nil {
+						errs[i] = fmt.Sprintf("panic: %v", e)
+					}
+				}()
+				if i < len(b.Restart) && b.Restart[i] != 0 {
+					if err := r.c.Restart(); err != nil {
+						errs[i] = fmt.Sprintf("restart replica %d before block %d: %v", i, bi, err)
+						return
+					}
+				}
+				var txs []pb.Transaction
+				if bi == 0 {
+					for _, ch := range h.Setup.Chains {
+						r.c.SeedAppchain(chainName(int64(ch)), "", "", governance.GovernanceAvailable)
+					}
+					for _, s := range h.Setup.Services {
+						st := governance.GovernanceAvailable
+						switch s[3] {
+						case 1:
+							st = governance.GovernanceFrozen
+						case 2:
+							continue
+						}
+						seedService(r.c, chainName(int64(s[0])), svcName(int64(s[1])), s[2] != 0, st)
+					}
+					for _, f := range h.Setup.Fund {
+						k := acctKey(100)
+						txs = append(txs, hx.TransferTx(k, r.nextNonce(k), hx.Addr(acctKey(f[0])), strconv.FormatInt(f[1], 10)))
+					}
+				}
+				nfund := len(txs)
+				var kinds []string
+				amts := make([]int64, len(b.Txs))
+				for j, op := range b.Txs {
+					tx, kind := r.buildTx(h, op)
+					txs = append(txs, tx)
+					kinds = append(kinds, kind)
+					if op[0] == 1 {
+						amts[j] = op[3]
+						if kind == "amt" {
+							amts[j] = r.lastAmt
+						}
+					}
+				}
+				ev := r.c.ExecBlock(txs, false, 20*time.Second)
+				if ev == nil {
+					errs[i] = fmt.Sprintf("replica %d: block %d not executed within the deadline", i, bi)
 					return
 				}
-			}
-			var txs []pb.Transaction
-			if bi == 0 {
-				for _, ch := range h.Setup.Chains {
-					r.c.SeedAppchain(chainName(int64(ch)), "", "", governance.GovernanceAvailable)
+				height := ev.Block.BlockHeader.Number
+				f, rs, meta, err := blockFields(r.c, height)
+				if err != nil {
+					errs[i] = err.Error()
+					return
 				}
-				for _, s := range h.Setup.Services {
-					st := governance.GovernanceAvailable
-					switch s[3] {
-					case 1:
-						st = governance.GovernanceFrozen
-					case 2:
-						continue
-					}
-					seedService(r.c, chainName(int64(s[0])), svcName(int64(s[1])), s[2] != 0, st)
-				}
-				for _, f := range h.Setup.Fund {
-					k := acctKey(100)
-					txs = append(txs, hx.TransferTx(k, r.nextNonce(k), hx.Addr(acctKey(f[0])), strconv.FormatInt(f[1], 10)))
-				}
-			}
-			nfund := len(txs)
-			var kinds []string
-			amts := make([]int64, len(b.Txs))
-			for j, op := range b.Txs {
-				tx, kind := r.buildTx(h, op)
-				txs = append(txs, tx)
-				kinds = append(kinds, kind)
-				if op[0] == 1 {
-					amts[j] = op[3]
-					if kind == "amt" {
-						amts[j] = r.lastAmt
+				// bookkeeping: proposal ids created in this block
+				for j, kind := range kinds {
+					if kind == "proposal" && nfund+j < len(rs) && rs[nfund+j].Status == pb.Receipt_SUCCESS {
+						var gr governance.GovernanceResult
+						if json.Unmarshal(rs[nfund+j].Ret, &gr) == nil && gr.ProposalID != "" {
+							r.proposals = append(r.proposals, gr.ProposalID)
+						}
 					}
 				}
-			}
-			ev := r.c.ExecBlock(txs, false, 20*time.Second)
-			if ev == nil {
-				out.Err = fmt.Sprintf("replica %d: block %d not executed within the deadline", i, bi)
+				vals[i] = f
+				o := observe(r.c, h, height, rs, meta)
+				o.Txs = o.Txs[nfund:]
+				for j := range o.Txs {
+					if j < len(amts) {
+						o.Txs[j].Amt = amts[j]
+					}
+				}
+				obs[i] = o
+			}(i, r)
+		}
+		wg.Wait()
+		for _, e := range errs {
+			if e != "" {
+				out.Err = e
 				return
 			}
-			height := ev.Block.BlockHeader.Number
-			f, rs, meta, err := blockFields(r.c, height)
-			if err != nil {
-				out.Err = err.Error()
-				return
-			}
-			// bookkeeping: proposal ids created in this block
-			for j, kind := range kinds {
-				if kind == "proposal" && nfund+j < len(rs) && rs[nfund+j].Status == pb.Receipt_SUCCESS {
-					var gr governance.GovernanceResult
-					if json.Unmarshal(rs[nfund+j].Ret, &gr) == nil && gr.ProposalID != "" {
-						r.proposals = append(r.proposals, gr.ProposalID)
-					}
-				}
-			}
-			vals[i] = f
-			o := observe(r.c, h, height, rs, meta)
-			o.Txs = o.Txs[nfund:]
-			for j := range o.Txs {
-				if j < len(amts) {
-					o.Txs[j].Amt = amts[j]
-				}
-			}
-			obs[i] = o
 		}
 		agreedBefore := out.Div == nil
 		out.compare(bi, vals)
